@@ -212,6 +212,8 @@ func ValidateParameter(ctx context.Context, input *RequestValidationInput, param
 				// Next check `parameter.Required && !found` will catch this.
 			case openapi3.ParameterInQuery:
 				q := req.URL.Query()
+				// a parameter sent without a value is replaced by the default, not followed by it
+				q.Del(parameter.Name)
 				// an unset style / explode means the location's default (form, exploded for query parameters)
 				sm, err := parameter.SerializationMethod()
 				if err != nil {
@@ -220,8 +222,18 @@ func ValidateParameter(ctx context.Context, input *RequestValidationInput, param
 				populateDefaultQueryParameters(q, parameter.Name, value, sm)
 				req.URL.RawQuery = q.Encode()
 			case openapi3.ParameterInHeader:
-				req.Header.Add(parameter.Name, formatDefaultValue(value))
+				req.Header.Set(parameter.Name, formatDefaultValue(value))
 			case openapi3.ParameterInCookie:
+				if found {
+					// drop the cookie that was sent without a value
+					cookies := req.Cookies()
+					req.Header.Del("Cookie")
+					for _, c := range cookies {
+						if c.Name != parameter.Name {
+							req.AddCookie(c)
+						}
+					}
+				}
 				req.AddCookie(&http.Cookie{
 					Name:  parameter.Name,
 					Value: formatDefaultValue(value),
